@@ -10,7 +10,7 @@ from . import common as C
 from . import session as S
 
 SPEC = os.path.join(C.SPECS, "session")
-CONSOLE_KINDS = ["reject", "garbage", "stall", "close"]
+CONSOLE_KINDS = ["reject", "warnreject", "garbage", "stall", "close"]
 HTTPS_KINDS = ["status", "malformed", "eof", "nosuccess"]
 
 
@@ -187,6 +187,8 @@ def run(prop, tier, replay_file=None):
                 for kind in kinds:
                     if kind in ("reject", "garbage") and text == "":
                         continue     # no device rejects an empty line
+                    if kind == "warnreject" and (cls != "change" or p["type"] == "linux"):
+                        continue
                     if kind == "garbage" and cls != "change":
                         continue     # free-form output of read commands cannot be 'unexpected'
                     if kind == "stall" and tier == "quick" and k % 3 != (C.seed() % 3) and cls not in ("change", "save"):
